@@ -42,6 +42,13 @@ def cases(rng, tier):
     for kind in gen.NOPARAM2 + gen.PARAM2:
         for m in gen.valid_masks(kind, nn):
             cs.append({"kind": "applybasis", "n": nn, "j": rng.randrange(1 << nn), "e": gen.gate(kind, m, rng)})
+    # (c') the several-bit gates on masks of 7-10 bits (counts beyond one period of i and of e^{i pi/4}), basis states
+    # with all / most of the selected qubits set
+    for n in ((9,) if tier == "quick" else (8, 9, 10)):
+        for kind in gen.NOPARAM1:
+            for m in ((1 << n) - 1, (1 << n) - 2, rng.getrandbits(n) | 0b1111111):
+                for j in ((1 << n) - 1, m, rng.randrange(1 << n)):
+                    cs.append({"kind": "applybasis", "n": n, "j": j, "e": (kind, m)})
     # (d) high bit positions through sparse probes
     top = 12 if tier == "quick" else 20
     for _ in range(60 if tier == "quick" else 1500):
